@@ -81,6 +81,11 @@ func (p *Planner) makeTypeIndexJoin(
 	var joinPlan planNode
 	var err error
 
+	if parent.collection == nil {
+		// The parent is not a collection (e.g. a commits selection), there is nothing to join.
+		return nil, ErrUnknownRelationType
+	}
+
 	typeFieldDesc, ok := parent.collection.Definition().GetFieldByName(subType.Name)
 	if !ok {
 		return nil, client.NewErrFieldNotExist(subType.Name)
